@@ -1311,6 +1311,10 @@ def render(an):
     out.append('  s_globals := [' + '; '.join(coq_str(g) for g in sorted(an.mod_mutable)) + '];')
     out.append('  s_sets := [' + '; '.join(coq_str(g) for g in sorted(an.mod_sets)) + '] |}.')
     out.append('')
+    out.append('(* parameter names of the entry functions, in the order of the indices used by RParam / RParamDeep *)')
+    out.append('Definition entry_params : list (string * list string) :=\n  [' + ';\n   '.join(
+        '({}, [{}])'.format(coq_str(e), '; '.join(coq_str(p) for p in an.fns[e].params)) for e in ENTRIES if e in an.fns) + '].')
+    out.append('')
     return '\n'.join(out)
 
 
